@@ -372,6 +372,36 @@ def closeBalance (c : Ctx) : Res Out := do
   let (b', x') ← Bank.closeBalanceOp b (toBal s) c.now
   .ok { slots := writeSlot c c.a.slots i x', books := b', tokens := 0, window := c.g.window }
 
+/-! ### `lending_pool_handle_bankruptcy`, the whole instruction
+
+account checks (regenerated table) → bank state → who may settle (anyone if the bank opted in, else group admin / risk admin)
+→ the bankruptcy assessment of the risk engine on the account's portfolio AS STORED (pre-accrual books, slot order) →
+accrual → the position → `Bank.settleBankruptcy` (bad debt at the accrued share value, insurance first, rest socialised,
+debt repaid) → the account is disabled, a wiped bank is killed. `available` = what the insurance vault can deliver. -/
+
+structure BkrOut where
+  slots : List Account.Slot
+  books : Bank.Bank
+  insuranceTokens : Int
+  opState : Int
+  flags : Nat
+  deriving Repr
+
+def bankruptcy (c : Ctx) (available : Int) : Res BkrOut := do
+  runChecks c.env (checks .LendingPoolHandleBankruptcy)
+  bankState c .failsInPausedState
+  Bank.chk (Bank.bankruptcyAuthorized (hasFlag c.b.books.flags PERMISSIONLESS_BAD_DEBT_SETTLEMENT_FLAG) c.signer c.g.admin c.g.riskAdmin) E.Unauthorized
+  let ps ← portfolio c c.a.slots c.b.books
+  let _ ← Risk.checkBankrupt ps
+  let b ← Bank.accrueInterest c.b.books c.b.ir c.now
+  match Account.findIdx c.a.slots c.b.key with
+  | none => .error (.err E.LendingAccountBalanceNotFound)
+  | some i => do
+    let x ← balAt c.a.slots i
+    let o ← Bank.settleBankruptcy b x available c.now
+    .ok { slots := c.a.slots.set i (ofBal c.b.key o.bal), books := o.bank, insuranceTokens := o.coveredUp,
+          opState := if o.kill then 3 else c.b.opState, flags := c.a.flags ||| ACCOUNT_DISABLED.toNat }
+
 /-! ### the protocol as a state machine over whole instructions
 
 Any number of margin accounts and banks of one group; a step is one of the five whole instructions by any signer on any
